@@ -1,9 +1,9 @@
 """development helper: run component correspondence for given families and print the summary"""
 import sys, json
-import common as C, corr_comp as K, corr_star, corr_kinds
+import common as C, corr_comp as K, corr_star, corr_kinds, corr_net
 rep = C.Report("DEV")
 for fam in sys.argv[2:]:
-    K.correspondence(rep, fam, int(sys.argv[1]), 14 if fam not in ('star','kind','catch') else 8, maxdigits=30 if fam in ('star','kind','catch') else None)
+    K.correspondence(rep, fam, int(sys.argv[1]), 14 if fam not in ('star','kind','catch','net') else 8, maxdigits=30 if fam in ('star','kind','catch','net') else None)
 print(json.dumps(rep.corr, indent=0)[:3000])
 for v in rep.violations[:5]:
     print(v[0], v[1][:400], v[2])
